@@ -1,4 +1,4 @@
-import QuillModel.Backend.Ops
+import QuillModel.Backend.Fault
 import QuillModel.Backend.UOps
 import QuillModel.Drivers.Util
 /-!
@@ -65,9 +65,26 @@ def parseOp : List String → Option Backend.Op
   | ["X"] => some .exit
   | w => (parseFOp w).map .front
 
-def exec (s : BSt) (w : List String) : BSt × String :=
+/-- w2_faults: `2,5e,7n` — throwing call numbers with their kind (e: empty what(), n: not a std::exception) -/
+def throwList (v : String) : List Nat × List (Nat × Nat) :=
+  (v.splitOn ",").foldl (fun acc x =>
+    let cs := x.toList
+    let (ds, kind) := match cs.getLast? with
+      | some 'e' => (cs.dropLast, 1)
+      | some 'n' => (cs.dropLast, 2)
+      | _ => (cs, 0)
+    match (String.ofList ds).toNat? with
+    | some k => (acc.1 ++ [k], if kind = 0 then acc.2 else acc.2 ++ [(k, kind)])
+    | none => acc) ([], [])
+
+/-- w2_faults: the fault machine (`Backend/Fault.lean`); `LU` / `DT` exist only at the top level of a script -/
+def exec (fc : FCfg) (s : BSt) (w : List String) : BSt × String :=
+  match w with
+  | ["LU", a, g, len] => applyOpF fc s (.logU (nat! a) (nat! g) (nat! len))
+  | ["DT", k] => applyOpF fc s (.armDecode (nat! k))
+  | _ =>
   match parseOp w with
-  | some op => applyOp s op
+  | some op => applyOpF fc s (.base op)
   | none => (s, "bad-op")
 
 /-! the two unbounded builds: the same script language plus `SH a want` / `QC a` -/
@@ -136,6 +153,8 @@ def runTrace : IO UInt32 := do
   let stdin ← IO.getStdin
   let lines ← Drv.readLines stdin
   let mut u : Setup := {}
+  let mut fc : FCfg := {}
+  let mut skipRest := false
   let mut st : Option BSt := none
   let mut mism := 0
   let mut total := 0
@@ -155,7 +174,7 @@ def runTrace : IO UInt32 := do
     match w with
     | "case" :: name :: _ =>
       if st.isSome then IO.println s!"TRACE {id} lines={total} polls={polls} writes={writes} parks={parks} drops={drops} injected={injected}"
-      id := name; u := {}; st := none; traces := traces + 1
+      id := name; u := {}; st := none; skipRest := false; traces := traces + 1
       total := 0; polls := 0; writes := 0; parks := 0; drops := 0; injected := 0
     | "params" :: rest =>
       for x in rest do
@@ -170,6 +189,9 @@ def runTrace : IO UInt32 := do
         | some ("flushInvalid", v) => u := { u with flushInvalid := v == "1" }
         | some ("follow", v) => u := { u with follow := v == "1" }
         | some ("replayCatch", v) => u := { u with replayCatch := v == "1" }
+        | some ("patInLoop", v) => fc := { fc with patInLoop := v == "1" }
+        | some ("readAborts", v) => fc := { fc with readAborts := v == "1" }
+        | some ("notifyAlways", v) => fc := { fc with notifyAlways := v == "1" }
         | some ("flushBeforeErase", v) => u := { u with flushBeforeErase := v == "1" }
         | _ => pure ()
     | "cfg" :: rest =>
@@ -194,8 +216,9 @@ def runTrace : IO UInt32 := do
           match v.splitOn ":" with
           | [m, r] => k := { k with filtM := nat! m, filtR := nat! r }
           | _ => pure ()
-        | some ("wthrow", v) => k := { k with wthrow := natList v }
-        | some ("fthrow", v) => k := { k with fthrow := natList v }
+        | some ("wthrow", v) => k := { k with wthrow := (throwList v).1, wkind := (throwList v).2 }
+        | some ("fthrow", v) => k := { k with fthrow := (throwList v).1, fkind := (throwList v).2 }
+        | some ("pat", v) => k := { k with patFails := v == "bad" }
         | _ => pure ()
       u := { u with sinks := u.sinks ++ [k] }
     | "logger" :: g :: rest =>
@@ -225,8 +248,16 @@ def runTrace : IO UInt32 := do
       match st with
       | none => IO.println s!"NOT-STARTED line {lineNo}: {line}"; mism := mism + 1
       | some s =>
-        let (s1, res) := if u.unbounded then execU { qmax := u.qmax, follow := u.follow } { s with out := [] } w
-                         else exec { s with out := [] } w
+        -- w2_faults: variants 0/1 run on the fault machine; the unbounded builds run on the U machine, which knows neither fault
+        -- kinds / failing patterns nor read-pass aborts: `LU` is an `LS` there (same bytes), and from the first `DT` / `NA` on (or
+        -- with sinks carrying the new fault kinds) the rest of the case is left to the property oracles
+        if u.unbounded && (w.head? == some "DT" || w.head? == some "NA" ||
+            u.sinks.any (fun k => !k.wkind.isEmpty || !k.fkind.isEmpty || k.patFails)) then
+          skipRest := true
+        if skipRest then continue
+        let wU := match w with | ["LU", a, g, len] => ["LS", a, g, "4", len] | _ => w
+        let (s1, res) := if u.unbounded then execU { qmax := u.qmax, follow := u.follow } { s with out := [] } wU
+                         else exec fc { s with out := [] } w
         let (s2, evs) := takeEvents s1
         let mobs := if evs.isEmpty then res else s!"{res} | {evs}"
         total := total + 1
